@@ -468,6 +468,24 @@ class Interp:
             b = self.ev(s[3], env)
             i = a
             while i < b:
+                if "no_block_scope" in self.dev:
+                    # deviation: ONE scope for the whole loop (restored when the loop ends); the body block
+                    # does not get a scope per iteration, so a let inside it survives into the next iteration
+                    if i == a:
+                        env.append({})
+                        pushed_loop_scope = True
+                    env[-1][s[1]] = [i, False]
+                    try:
+                        self.block(s[4], env)
+                    except _Break:
+                        break
+                    except _Continue:
+                        pass
+                    except BaseException:
+                        env.pop()
+                        raise
+                    i += 1
+                    continue
                 env.append({s[1]: [i, False]})
                 try:
                     try:
@@ -479,6 +497,8 @@ class Interp:
                 finally:
                     env.pop()
                 i += 1
+            if "no_block_scope" in self.dev and a < b:
+                env.pop()
         elif t == "break":
             raise _Break()
         elif t == "continue":
@@ -492,8 +512,13 @@ class Interp:
         elif t == "expr":
             self.ev(s[1], env)
         elif t == "assert":
-            if not self.ev(s[1], env):
-                raise Fault("assert", "assertion failed")
+            ok = self.ev(s[1], env)
+            self.asserts_executed = getattr(self, "asserts_executed", 0) + 1
+            if not ok:
+                if "assert_records" in self.dev:      # shadow-test semantics: record the failure, keep going
+                    self.asserts_failed = getattr(self, "asserts_failed", 0) + 1
+                else:
+                    raise Fault("assert", "assertion failed")
         elif t == "match":
             v = self.ev(s[1], env)
             for variant, bind, body in s[2]:
